@@ -292,11 +292,14 @@ def work(spec):
     c = res['counters']
     n = 0
     start, lo = lo
+    example = None
     for prefix, x in explore(lambda p: run_exec(om, kinds, p, opcode, gran), bound, first_points=(lo, hi), base=(start,)):
         n += 1
         res['states'] += 1
         res['transitions'] += len(x.points)
         c['executions'] += 1
+        if x.switches and example is None and len(prefix) > 2:
+            example = [(i, ch) for i, ch in enumerate(x.choices) if ch]
         if x.switches:
             c['with_preemption'] += 1
             res['nontrivial'] += 1
@@ -316,7 +319,8 @@ def work(spec):
     res['execs'] = c['executions']
     if c['nondeterministic_replays']:
         res['internal_error'] = 'replaying a recorded schedule did not give the same execution'
-    core.add_sample(res, {'threads': list(kinds), 'bound': bound, 'first_thread': start, 'first_deviation_points': [lo, hi], 'executions': n})
+    core.add_sample(res, {'threads': list(kinds), 'bound': bound, 'first_thread': start, 'first_deviation_points': [lo, hi], 'executions': n,
+                          'example_schedule_switches_(point,thread_choice)': example})
     return res
 
 
